@@ -200,6 +200,7 @@ public:
         if( token!=low_token ) {
             // Trying to put token that is beyond low_token.
             // Need to wait until low_token catches up before dispatching.
+            __TBB_VERIF_POINT(vp_pipe_token_parked, this, token - low_token);
             if( token-low_token>=array_size )
                 grow( token-low_token+1 );
             ITT_NOTIFY( sync_releasing, this );
@@ -214,6 +215,7 @@ public:
     // Uses template to avoid explicit dependency on stage_task.
     template<typename StageTask>
     void try_to_spawn_task_for_next_token(StageTask& spawner, d1::execution_data& ed) {
+        __TBB_VERIF_POINT(vp_pipe_try_spawn_next, this, 0);
         task_info wakee;
         {
             spin_mutex::scoped_lock lock( array_mutex );
@@ -248,6 +250,7 @@ public:
 };
 
 void input_buffer::grow( size_type minimum_size ) {
+    __TBB_VERIF_POINT(vp_pipe_grow, this, minimum_size);
     size_type old_size = array_size;
     size_type new_size = old_size ? 2*old_size : initial_buffer_size;
     while( new_size<minimum_size )
@@ -397,6 +400,7 @@ bool stage_task::execute_filter(d1::execution_data& ed) {
         }
     } else {
         // Reached end of the pipe.
+        __TBB_VERIF_POINT(vp_pipe_token_release, &my_pipeline, 0);
         std::size_t ntokens_avail = my_pipeline.input_tokens.fetch_add(1, std::memory_order_acquire);
 
         if( ntokens_avail>0  // Only recycle if there is one available token
